@@ -201,3 +201,11 @@ Theorem C11_growth_inputs_equivariant {P A B C : Type} (gname : P -> nat) (gboun
   growth_inputs gname gbounds gibbs gbeta ps d (nth i idx 0).
 Proof. exact (growth_inputs_reorder gname gbounds gibbs gbeta ps d idx i). Qed.
 Print Assumptions C11_growth_inputs_equivariant.
+
+(* a per-phase callback that binds its phase index when it is created reads its own phase, wherever the phase is listed *)
+Theorem C11_callback_equivariant {P T : Type} (table : P -> T) (ps : list P) d idx i :
+  i < length idx ->
+  callback table Early ps d (nth i idx 0) = table (nth (nth i idx 0) ps d) /\
+  callback table Early (reorder d ps idx) d i = callback table Early ps d (nth i idx 0).
+Proof. exact (fun H => conj (callback_early table ps d (nth i idx 0)) (callback_early_reorder table ps d idx i H)). Qed.
+Print Assumptions C11_callback_equivariant.
